@@ -70,6 +70,7 @@ structure FieldOk (ty : AType) (it : It) : Prop where
   spos : 0 < (ti (stripArr ty)).size
   info : info it.item = ⟨(ti (stripArr ty)).size, (ti (stripArr ty)).align, flattenC x86_64 true (stripArr ty)⟩
   arr : ArrFacts ty
+  noflex : (ti ty).flexible = false
   intItem : ∀ s, ty = .sc s → s.isFloat = false → it.item = .base (intBase s.size)
 
 def FOk : AFields → List It → Prop
@@ -190,5 +191,19 @@ theorem flattenFields_flatL (here : Bool) : ∀ (fs : AFields) (ms : List Member
       | some w' =>
         simp only [flattenFields, hprod, ↓reduceIte, imgsOf, flatL]
         rw [flattenFields_flatL here rest ms' _ hok.2]
+
+theorem fok_noflex : ∀ (fs : AFields) (l : List It), FOk fs l →
+    (Abi.decls x86_64 (eraseF fs)).all declOk = true → aggFlexible (Abi.decls x86_64 (eraseF fs)) = false
+  | .nil, _, _, _ => by simp [eraseF, Abi.decls, aggFlexible]
+  | .cons name ty al w rest, l, hf, hok => by
+    rw [decls_cons] at hok ⊢
+    simp only [List.all_cons, Bool.and_eq_true] at hok
+    have hprod : producesMember name w = true := by
+      have := hok.1
+      simp only [declOk, Bool.and_eq_true] at this
+      exact this.1
+    simp only [FOk, hprod, ↓reduceIte] at hf
+    obtain ⟨it, l', rfl, fo, frest⟩ := hf
+    simp only [aggFlexible, fo.arr.complete, fo.noflex, fok_noflex rest l' frest hok.2, Bool.or_self]
 
 end CprocVerif.AbiDesc
